@@ -22,6 +22,8 @@ import c14
 import hirtree
 import summ
 import sym
+import tbl
+from tbl import norm
 from hirtree import size_poly, p_const, p_add, p_mul, p_atom, freeze
 from sym import C
 
@@ -110,6 +112,102 @@ def resolve_atom(a):
     return p_atom(a)
 
 
+def poly_of_term(F, p, t, depth=0):
+    """size polynomial of a MIR term of a POSTCARD_MAX_SIZE initialiser (evaluated by the path-sensitive evaluator)"""
+    k = t[0]
+    if k == "c":
+        return p_const(t[1])
+    if k == "constref" and t[3] == "POSTCARD_MAX_SIZE":
+        return p_atom(("sz", c14.norm_self(t[2][0]) if t[2] else "?"))
+    if k == "tyconst":
+        return p_atom(("N", str(t[1]).split("/")[0]))
+    if k == "bin" and t[1] in ("Add", "Mul"):
+        a, b = poly_of_term(F, p, t[2], depth + 1), poly_of_term(F, p, t[3], depth + 1)
+        return p_add(a, b) if t[1] == "Add" else p_mul(a, b)
+    if k == "cast" and t[1] == "IntToInt":
+        return poly_of_term(F, p, t[2], depth + 1)
+    if k == "call":
+        ev = tbl.event_by_id(p, t[1])
+        nm = (t[2] or "").rsplit("::", 1)[-1]
+        gargs = tuple(ev["callee"]["args"]) if ev and ev.get("callee") else ()
+        return p_atom(("call", nm, gargs, tuple(freeze(poly_of_term(F, p, a, depth + 1)) for a in t[3])))
+    return p_atom(("?", "term %s" % k))
+
+
+def size_poly_mir(F, pc, c):
+    """POSTCARD_MAX_SIZE initialiser -> polynomial, from the constant's MIR: blocks, lets, tuple patterns, helper calls and
+    `if a > b { a } else { b }` are evaluated, the latter read back as max(a, b)"""
+    f = pc.by_canon.get(c.get("canon"))
+    if f is None:
+        return None
+    eng = sym.Engine(F, inline=lambda g, ev: g.crate == "postcard" and (sym.inline_consts(g, ev) or len(g.blocks) <= 12), max_visits=3)
+    ps = [p for p in eng.run(f) if p.status != "infeasible"]
+    if any(p.status != "return" for p in ps) or not ps:
+        return None
+    if len(ps) == 1:
+        return poly_of_term(F, ps[0], ps[0].ret)
+    if len(ps) == 2:
+        conds = [[(cc, t) for cc, t, k in p.pc if k == "branch"] for p in ps]
+        if all(len(x) == 1 for x in conds) and norm(conds[0][0][0]) == norm(conds[1][0][0]) and conds[0][0][1] != conds[1][0][1]:
+            cc = norm(conds[0][0][0])
+            if cc[0] == "bin" and cc[1] in ("Gt", "Ge", "Lt", "Le"):
+                X, Y = poly_of_term(F, ps[0], cc[2]), poly_of_term(F, ps[0], cc[3])
+                # which path is taken when X is the larger one
+                big_first = cc[1] in ("Gt", "Ge")
+                pT = ps[0] if conds[0][0][1] is True else ps[1]
+                pF = ps[1] if pT is ps[0] else ps[0]
+                RX = poly_of_term(F, pT if big_first else pF, (pT if big_first else pF).ret)      # result when X wins
+                RY = poly_of_term(F, pF if big_first else pT, (pF if big_first else pT).ret)      # result when Y wins
+                restX = p_add(RX, {m: -v for m, v in X.items()})
+                restY = p_add(RY, {m: -v for m, v in Y.items()})
+                if restX == restY:
+                    a, b = sorted([freeze(X), freeze(Y)], key=repr)
+                    return p_add(restX, p_atom(("max", a, b)))
+    return None
+
+
+def expand_sz(poly, impls, depth=0):
+    """MAX<composite type> atoms (e.g. MAX<(T, T)>) are replaced by the polynomial of the impl they name"""
+    if depth > 4:
+        return poly
+    out = {}
+    changed = False
+    for mono, cf in poly.items():
+        term = {(): cf}
+        for a in mono:
+            rep = None
+            if a[0] == "sz" and not re.fullmatch(r"\w+", a[1] or "") and a[1] not in PRIM:
+                for pat, gens, ipoly in impls:
+                    b = {}
+                    if sym.unify_ty(pat, a[1], set(gens), b):
+                        rep = subst_sz(ipoly, b)
+                        break
+            if rep is not None:
+                changed = True
+                term = p_mul(term, rep)
+            else:
+                term = p_mul(term, p_atom(a))
+        out = p_add(out, term)
+    return expand_sz(resolve(out), impls, depth + 1) if changed else out
+
+
+def subst_sz(poly, b):
+    out = {}
+    for mono, cf in poly.items():
+        term = {(): cf}
+        for a in mono:
+            if a[0] == "sz" and a[1] in b:
+                a = ("sz", b[a[1]])
+            elif a[0] == "N" and a[1] in b:
+                a = ("N", b[a[1]]) if not str(b[a[1]]).isdigit() else None
+                if a is None:
+                    term = p_mul(term, p_const(int(b[[k for k in b][0]])))
+                    continue
+            term = p_mul(term, p_atom(a))
+        out = p_add(out, term)
+    return out
+
+
 def show_poly(p):
     if not p:
         return "0"
@@ -142,19 +240,32 @@ def run(run_, ctx):
     run_.bodies += len(pc.fns)
     # ---- E + S ---------------------------------------------------------------------------------------------------
     n = 0
+    polys = {}
+    for c in pc.consts:
+        if c["name"] != "POSTCARD_MAX_SIZE" or not (c.get("impl_trait") or "").endswith("max_size::MaxSize"):
+            continue
+        p0 = size_poly_mir(F, pc, c)
+        if p0 is None or any(a[0] == "?" for m in p0 for a in m):
+            p0 = size_poly(c["hir"])
+        polys[c["canon"]] = resolve(p0)
+    impls = [(re.sub(r"&'_ ", "&", c14.norm_self(c.get("impl_self"))), c.get("generics") or [], polys[c["canon"]]) for c in pc.consts if c.get("canon") in polys]
     for c in pc.consts:
         if c["name"] != "POSTCARD_MAX_SIZE" or not (c.get("impl_trait") or "").endswith("max_size::MaxSize"):
             continue
         st = c14.norm_self(c.get("impl_self"))
         st = re.sub(r"&'_ ", "&", st)
         site = "%s:%s" % (c.get("file"), c.get("line"))
-        spec = spec_for(st)
+        mp = c14.alpha_map(st) if re.match(r"^\(", st) else {}
+        spec = spec_for(c14.alpha_str(st, {k: chr(ord("A") + i) for i, k in enumerate(mp)}) if mp else st)
+        if mp and spec is not None:
+            back = {chr(ord("A") + i): k for i, k in enumerate(mp)}
+            spec = subst_sz(spec, back)
         n += 1
         if spec is None:
             run_.bad("E", st, "impl MaxSize for %s has no row in the size-algebra oracle (new impl: add its wire size)" % st, site)
             continue
         run_.ok("E", st, "oracle row present", site)
-        got = resolve(size_poly(c["hir"]))
+        got = expand_sz(polys[c["canon"]], [x for x in impls if x[0] != st])
         run_.check(got == spec, "S", st, "declared maximum %s differs from the wire-format size %s" % (show_poly(got), show_poly(spec)), site,
                    expected=show_poly(spec), found=show_poly(got), detail="POSTCARD_MAX_SIZE = %s" % show_poly(got))
     run_.floor("E", 49)
@@ -166,15 +277,17 @@ def run(run_, ctx):
         okm = ls in (["if arg1 <= arg2: - => arg2", "if arg2 < arg1: - => arg1"],
                      ["if arg1 < arg2: - => arg2", "if arg2 <= arg1: - => arg1"])
         run_.check(okm, "H", "max", "helper `max` does not return the larger of its arguments on both paths", fmax[0].where(), found=ls)
+    elif any(a[0] == "call" and a[1] == "max" for p_ in polys.values() for m in p_ for a in m):
+        run_.bad("H", "max", "a size constant calls a helper `max` that was not found")
     else:
-        run_.bad("H", "max", "helper not found")
+        run_.ok("H", "max", "no `max` helper in use (maxima are computed in place and read back from the constants' MIR)")
     fvs = [f for f in pc.fns if f.def_ == "max_size::varint_size"]
     if len(fvs) == 1:
         f = fvs[0]
         bad = []
         cases = [0] + [1 << k for k in range(64)] + [(1 << k) - 1 for k in range(1, 65)]
         for v in cases:
-            eng = sym.Engine(F, inline=sym.inline_consts, max_visits=3)
+            eng = sym.Engine(F, inline=sym.inline_consts, max_visits=16)
             ps = [p for p in eng.run(f, [C(v, "usize")]) if p.status == "return"]
             if len(ps) != 1 or not sym.is_c(ps[0].ret):
                 bad.append("varint_size(%d) does not fold to a constant" % v)
@@ -184,8 +297,21 @@ def run(run_, ctx):
         # it must use n only through ==0 and leading_zeros (so the 129 samples cover all 65 classes)
         ls = summ.lines(summ.summarize(F, f))
         uses = " ".join(ls)
-        if re.search(r"arg1", re.sub(r"leading_zeros\(arg1\)|0 [!=]= arg1", "", uses)):
-            bad.append("varint_size uses its argument other than through `== 0` and leading_zeros(): class argument does not apply")
+        closed = not re.search(r"arg1", re.sub(r"leading_zeros\(arg1\)|0 [!=]= arg1", "", uses))
+        if not closed:
+            # not the closed form over the bit length: then it must be the counting loop, whose value changes only where the argument
+            # crosses a power of 128; the samples 2^k - 1 and 2^k for every k include both sides of each such point, and between two
+            # consecutive samples the loop's comparisons `n >= 128` after each `>> 7` have the same outcomes
+            eng2 = sym.Engine(F, inline=sym.inline_consts, max_visits=3)
+            conds = set()
+            for p in eng2.run(f):
+                for cnd, t, k in p.pc:
+                    if k == "branch":
+                        conds.add(sym.show(norm(cnd)))
+            okc = all(re.fullmatch(r"(Lt|Le|Gt|Ge|Eq|Ne)\((Shr\()*arg1(, \d+_u32\))*, \d+_usize\)", x) or re.fullmatch(r"(Lt|Le|Gt|Ge|Eq|Ne)\(\d+_usize, (Shr\()*arg1(, \d+_u32\))*\)", x) for x in conds)
+            consts = [int(x) for cnd in conds for x in re.findall(r"(\d+)_usize", cnd)]
+            if not okc or any(v & (v - 1) for v in consts):
+                bad.append("varint_size branches on something other than comparisons of its (shifted) argument with powers of two: %s" % sorted(conds)[:3])
         run_.check(not bad, "H", "varint_size", bad[0] if bad else "= vlen(n) for n = 0 and every bit length 1..64 (%d folded evaluations)" % len(cases), f.where(), found=bad[:3])
     else:
         run_.bad("H", "varint_size", "helper not found")
